@@ -764,7 +764,7 @@ class AbstractPathModelDAG(ABC):
             # checking if there is a path from source to sink
             found_path = False
             for out_neighbor in self.G.successors(vertex):
-                if self.edge_vars_sol[(str(vertex), str(out_neighbor), i)] == 1:
+                if self.edge_vars_sol[(vertex, out_neighbor, i)] == 1:
                     found_path = True
                     break
             if not found_path:
@@ -775,7 +775,7 @@ class AbstractPathModelDAG(ABC):
                 path = [vertex]
                 while vertex != self.G.sink:
                     for out_neighbor in self.G.successors(vertex):
-                        if self.edge_vars_sol[(str(vertex), str(out_neighbor), i)] == 1:
+                        if self.edge_vars_sol[(vertex, out_neighbor, i)] == 1:
                             vertex = out_neighbor
                             break
                     path.append(vertex)
@@ -814,7 +814,7 @@ class AbstractPathModelDAG(ABC):
             path_temp = [self.G.source] + path
             for (u,v) in zip(path_temp[:-1], path_temp[1:]):
                 # positions are sums of edge lengths, which need not be integer
-                if abs(edge_position_sol[(str(u), str(v), path_index)] - current_edge_position) > 1e-3:
+                if abs(edge_position_sol[(u, v, path_index)] - current_edge_position) > 1e-3:
                     return False
                 current_edge_position += self.G[u][v].get(self.length_attr, 1)
         return True
